@@ -23,7 +23,7 @@
 //     gives the same answer - the answer of a call does not depend on the calls made before it;
 //   - canonical: what the validating Decode accepted re-encodes with validation to exactly b[:n];
 //   - aliasing: Decode does not change its input;
-//   - every session ends with a burst of 4..8 Encode calls running at the same time on the shared API, judged by the same
+//   - every session ends with a burst of 4..8 Encode / Decode calls running at the same time on the shared API, judged by the same
 //     oracles (the thorough tier builds this part with the race detector);
 //   - layout (package refo): every `enc` answer against the reference encoder, the requests of the session up to it as the
 //     failing input (state that the twin shares with the session - package-level variables - is invisible to `history`).
@@ -352,17 +352,18 @@ func (u *universe) snapshot() []string {
 // ---- the interpreter ----
 
 type sess struct {
-	r        *hx.Run
-	u        *universe
-	cur      *site
-	curIdx   int
-	base     []string // snapshot before the first call
-	typeLine string
-	calls    int
-	nLines   int
-	mapCalls map[int]bool // pooled rules objects a map site has used so far
-	pending  *string      // the answer of the next enc request, computed beforehand by a concurrent burst
-	reported map[string]bool
+	r         *hx.Run
+	u         *universe
+	cur       *site
+	curIdx    int
+	base      []string // snapshot before the first call
+	typeLine  string
+	calls     int
+	nLines    int
+	mapCalls  map[int]bool   // pooled rules objects a map site has used so far
+	encBySite map[int][]byte // the last encoding each call site produced (inputs of the concurrent decodes)
+	pending   *string        // the answer of the next enc request, computed beforehand by a concurrent burst
+	reported  map[string]bool
 }
 
 func flagName(v bool) string {
@@ -528,11 +529,21 @@ func (x *sess) exec(op string) string {
 		b := hx.UnHex(f[2])
 		keep := append([]byte(nil), b...)
 		ans, d, n := decodeOn(x.u, idx, b, val)
+		call := "Decode"
+		if x.pending != nil {
+			// the answer the concurrent call gave; the sequential call just made supplies the decoded value for the
+			// canonical oracle and must agree with it
+			if *x.pending != ans {
+				x.fail("history", fmt.Sprintf("Decode answers `%s` when it runs beside other calls on the shared API and `%s` alone (request: %s)", clip(*x.pending, 200), clip(ans, 200), clip(op, 300)),
+					"answer-depends-on-concurrent-calls", "Decode(concurrent)")
+			}
+			ans, x.pending, call = *x.pending, nil, "Decode(concurrent)"
+		}
 		if !bytes.Equal(keep, b) {
 			x.fail("aliasing", fmt.Sprintf("Decode modified its input buffer: %x -> %x", keep, b), "decode-mutated-input", "Decode")
 			copy(b, keep)
 		}
-		x.afterCall("Decode", op, ans, func(u *universe) string { a, _, _ := decodeOn(u, idx, append([]byte(nil), keep...), val); return a })
+		x.afterCall(call, op, ans, func(u *universe) string { a, _, _ := decodeOn(u, idx, append([]byte(nil), keep...), val); return a })
 		if val && strings.HasPrefix(ans, "ok ") && n >= 0 && n <= len(b) {
 			x.r.Count("live:accepted")
 			var b2 []byte
@@ -639,6 +650,10 @@ func genSession(r *hx.Run, rng *hx.Rng, sub uint64) {
 			if len(encs) < 16 {
 				encs = append(encs, b)
 			}
+			if x.encBySite == nil {
+				x.encBySite = map[int][]byte{}
+			}
+			x.encBySite[k] = b
 		}
 	}
 	if x.nLines < 1400 {
@@ -656,12 +671,25 @@ func genSession(r *hx.Run, rng *hx.Rng, sub uint64) {
 func (x *sess) burst(rng *hx.Rng, vg *serixgen.VGen, gen *universe) {
 	type job struct {
 		k    int
-		text string
+		text string // enc: the value
+		in   []byte // dec: the input
 		fl   string
 		ans  string
 	}
 	jobs := make([]job, rng.Range(4, 8))
+	var withEnc []int
+	for k := range x.encBySite {
+		withEnc = append(withEnc, k)
+	}
+	sort.Ints(withEnc)
 	for i := range jobs {
+		if i%3 == 2 && len(withEnc) > 0 {
+			// decode something an earlier call of the session produced
+			k := withEnc[rng.Intn(len(withEnc))]
+			jobs[i] = job{k: k, in: append([]byte(nil), x.encBySite[k]...), fl: "v"}
+
+			continue
+		}
 		k := rng.Intn(len(x.u.sites))
 		if i%2 == 0 {
 			for tries := 0; tries < 20 && !x.u.sites[k].isMap; tries++ {
@@ -676,7 +704,11 @@ func (x *sess) burst(rng *hx.Rng, vg *serixgen.VGen, gen *universe) {
 		wg.Add(1)
 		go func(j *job) {
 			defer wg.Done()
-			j.ans = encodeOn(x.u, j.k, j.text, j.fl == "v")
+			if j.in != nil {
+				j.ans, _, _ = decodeOn(x.u, j.k, append([]byte(nil), j.in...), true)
+			} else {
+				j.ans = encodeOn(x.u, j.k, j.text, j.fl == "v")
+			}
 		}(&jobs[i])
 	}
 	wg.Wait()
@@ -685,7 +717,11 @@ func (x *sess) burst(rng *hx.Rng, vg *serixgen.VGen, gen *universe) {
 		x.line(fmt.Sprintf("type sel %d", jobs[i].k))
 		x.line("def -")
 		x.pending = &jobs[i].ans
-		x.line("enc " + jobs[i].fl + " " + jobs[i].text)
+		if jobs[i].in != nil {
+			x.line("dec v " + hx.Hex(jobs[i].in))
+		} else {
+			x.line("enc " + jobs[i].fl + " " + jobs[i].text)
+		}
 		x.pending = nil
 	}
 }
